@@ -6,7 +6,8 @@ import vlib, gen_mhupdate
 THMS_TAIL = ["IsalVerif.GenProps.MhTail.all_canon", "IsalVerif.GenProps.MhTail.all_count", "IsalVerif.GenProps.MhTail.mhtail_current",
              "IsalVerif.MhTailC.canon_tail", "IsalVerif.MhTailC.tailBlocks_is_standard", "IsalVerif.GenProps.MhTail.mhtail_is_standard"]
 THMS = ["IsalVerif.GenProps.MhUpdate.all_canon", "IsalVerif.GenProps.MhUpdate.all_count",
-        "IsalVerif.GenProps.MhUpdate.mhupdate_current", "IsalVerif.MhC.canon_mh_update"]
+        "IsalVerif.GenProps.MhUpdate.mhupdate_current", "IsalVerif.MhC.canon_mh_update", "IsalVerif.MhC.mhSpec_absorb",
+        "IsalVerif.GenProps.MhUpdate.mhupdate_absorbs"]
 
 
 def obligations(chk, tier):
